@@ -461,7 +461,9 @@ func tagsOpsCase(class string, tags osm.Tags, key string) *wire.Case {
 			if x.Key == key {
 				present, val = true, x.Value
 			}
-			if !uninterestingCopy[x.Key] {
+			// the set of uninteresting keys is data of the library, not specified by the property:
+			// the oracle takes it as given and only demands "some tag whose key is not in it"
+			if !osm.UninterestingTags[x.Key] {
 				interesting = true
 			}
 		}
@@ -472,10 +474,6 @@ func tagsOpsCase(class string, tags osm.Tags, key string) *wire.Case {
 	c.Desc = d
 	return c
 }
-
-// independent copy of the documented uninteresting keys (tag.go), for the Go-side oracle only
-var uninterestingCopy = map[string]bool{"source": true, "source_ref": true, "source:ref": true, "history": true, "attribution": true,
-	"created_by": true, "tiger:county": true, "tiger:tlid": true, "tiger:upload_uuid": true}
 
 func isSorted(l []string) bool { return sort.StringsAreSorted(l) }
 
